@@ -14,6 +14,9 @@
        TX  = <txid> <version> <locktime> <nowitsize> <nin> <nout> IN* OUT*
        IN  = <prevhash> <vout> <scriptsig> <sequence> <scriptOk:0|1> <nwit> <witness item>*
        OUT = <value> <script>
+    blockv <bits> <hash> … (as `block`)              -> the same with chain.TrustedTxChecker INSTALLED: <bits> = one 0/1 per
+                                                        transaction of the block, 1 = the hook answers true for it; the model
+                                                        side runs `acceptBlockT` (Model/ConnectTrust.lean), the spec ignores the hook
     dump                                             -> <n> e|e|…   with e = txid:vout,value,height,cb,script   (model DB)
     sdump                                            -> same for the spec's map
     reward <height>                                  -> <GetBlockReward> <spec subsidy>
@@ -24,6 +27,7 @@
     final <height> <time> TX                         -> 0 | 1                 (Tx.IsFinal)
 -/
 import GocoinV.Spec.Connect
+import GocoinV.Model.ConnectTrust
 import GocoinV.Base.Proto
 open GocoinV GocoinV.Connect
 
@@ -115,6 +119,20 @@ def step (st : OState) (toks : List String) : OState × String :=
     | none => bad
     | some b =>
       let (ch', r) := acceptBlock Cfg.current st.ch b
+      let mr := match r with
+        | .ok so => s!"m=ok:{so}"
+        | .error e => s!"m=err:{reprStr e}"
+      let (su', sr) := match Spec.Connect.connectBlock st.su b with
+        | .ok u => (u, "s=ok")
+        | .error e => (st.su, s!"s=err:{reprStr e}")
+      ({ ch := ch', su := su' }, s!"{mr} {sr}")
+  | "blockv" :: bits :: rest =>
+    match full pBlock rest with
+    | none => bad
+    | some b =>
+      if bits.length ≠ b.txs.length ∨ bits.any (fun c => c ≠ '0' ∧ c ≠ '1') then bad else
+      let chk := checkerOfBits b (bits.toList.map (· == '1'))
+      let (ch', r) := acceptBlockT Cfg.current chk st.ch b
       let mr := match r with
         | .ok so => s!"m=ok:{so}"
         | .error e => s!"m=err:{reprStr e}"
